@@ -562,6 +562,7 @@ def problems(c, io, drv):
     notes = io["compared"] = []
     for n, (op, o, idx) in enumerate(zip(ops, io["steps"], where)):
         k = op["op"]
+        o["heap_before"] = io["steps"][n - 1]["heap"] if n else []
         d = dsteps[idx[-1]]
         tr = trace[n]
         me = "step #%d `%s`" % (n + 1, describe({"ops": [dict(op)]}) if k not in CREATES else describe(c, n + 1).split("; ")[-1])
@@ -582,7 +583,8 @@ def problems(c, io, drv):
                     notes.append("parcor on ill conditioned levinson result: not compared")
                     continue
                 res = dict(res)
-                for kind, detail in c11.compare({"entry": "parcor"}, res, dd["alone"]):
+                sub = {"entry": "parcor", "machine": bool((o["heap_before"][t] or {}).get("num", {}).get("nonF", True))}
+                for kind, detail in c11.compare(sub, res, dd["alone"]):
                     out.append((kind, "hist:parcor:wrong-coefficients",
                                 "%s on f%d (now %s / %s) differs from the same call taken alone: %s" % (
                                     me, t, dd["heap"][t]["num"], dd["heap"][t]["den"], detail[:300])))
@@ -822,6 +824,12 @@ def t_edit_levinson(rng, long=0):
         ops.append({"op": "parcor", "t": 0})
         if rng.random() < 0.25:
             ops.append({"op": "stable", "t": 0})
+    if rng.random() < 0.3 and not long:
+        # the filter returned by levinson_durbin given a denominator by the caller
+        ops += [{"op": "setpoly", "t": 0, "part": "den", "cs": encl(_den(rng, rng.choice(["in", "on", "out"]))), "fl": "F"},
+                {"op": "stable", "t": 0}]
+        if rng.random() < 0.5:
+            ops.append({"op": "parcor", "t": 0})
     if rng.random() < 0.35:
         ops.append(dict(_lev(r, ops[0]["order"] if ops[0]["given"] else None, fl, ops[0]["cont"]), rsame=0)
                    if rng.random() < 0.6 else _lev(r, None, "F"))
